@@ -52,6 +52,8 @@ var Messages = []string{
 	"127.0.0.1 - - [05/Mar/2024:12:30:45 +0800] \"GET /x HTTP/1.1\" 200 612",
 	// SQL whose tokenisation depends on how a backslash inside a string literal is read
 	"SELECT 'a\\' FROM t",
+	"SELECT 'a\\' , b -- '\nFROM t",
+	"SELECT 'a\\'' FROM t",
 	"SELECT 'a\\\\' , b -- '\nFROM t",
 	"select \"x\\\"y\" from t where a = 'b\\'' and c = 1",
 	"INSERT INTO t VALUES ('it''s', \"q\", 3.5, NULL) /* c */",
@@ -87,8 +89,12 @@ var Zones = []string{"UTC", "Asia/Shanghai", "America/St_Johns", "America/Los_An
 var EdgeInstants = []int64{1730622600, 1730626200, 1730607300, 1729989000, 1729992600, 1712418300, 1710066600}
 
 func GenPoint(r *simrt.RNG) PointT {
-	p := PointT{Measurement: "m", Msg: Messages[r.Intn(len(Messages))], Tags: map[string]string{"t1": "tv"},
-		Str: map[string]string{"ts": Stamps[r.Intn(len(Stamps))]}, Int: map[string]int64{"n": int64(r.Intn(100)), "ms": 1610960605000}}
+	msgs, stamps := Messages, Stamps
+	if len(themeMsgs) > 0 && r.Intn(4) != 0 {
+		msgs, stamps = themeMsgs, themeStamps
+	}
+	p := PointT{Measurement: "m", Msg: msgs[r.Intn(len(msgs))], Tags: map[string]string{"t1": "tv"},
+		Str: map[string]string{"ts": stamps[r.Intn(len(stamps))]}, Int: map[string]int64{"n": int64(r.Intn(100)), "ms": 1610960605000}}
 	if r.Intn(3) == 0 {
 		p.Str["s"] = []string{"abc", "", "Zhang San", "13789123014"}[r.Intn(4)]
 	}
@@ -103,7 +109,32 @@ var Theme string
 func SetTheme(r *simrt.RNG) {
 	Theme = fmt.Sprintf("pt%d", r.Intn(1000000))
 	collide = r.Intn(3) == 0
+	// two featured recipes: in half of the plans every script draws mostly from them, so that
+	// several scripts / tasks of one plan exercise the same builtin code with different arguments
+	featured = [2]int{r.Intn(len(recipes)), r.Intn(len(recipes))}
+	featuredOn = r.Intn(2) == 0
+	// ... and in those plans the points share a small pool of messages and stamps, often a
+	// contiguous group of the tables (related inputs: the SQL texts, the DST-edge stamps ...)
+	themeMsgs, themeStamps = nil, nil
+	if featuredOn {
+		a := r.Intn(len(Messages))
+		for i := 0; i < 3; i++ {
+			themeMsgs = append(themeMsgs, Messages[(a+i)%len(Messages)])
+		}
+		b := r.Intn(len(Stamps))
+		for i := 0; i < 3; i++ {
+			themeStamps = append(themeStamps, Stamps[(b+i)%len(Stamps)])
+		}
+	}
 }
+
+var themeMsgs, themeStamps []string
+
+var (
+	featured   [2]int
+	featuredOn bool
+)
+
 
 // collide makes the colliding-pattern recipe much more likely in this plan.
 var collide bool
@@ -267,6 +298,9 @@ func GenScript(r *simrt.RNG, id int) string {
 	var b strings.Builder
 	for i := 0; i < n; i++ {
 		k := r.Intn(len(recipes))
+		if featuredOn && r.Intn(2) == 0 {
+			k = featured[r.Intn(2)]
+		}
 		if collide && r.Intn(3) == 0 {
 			k = 2 // the colliding-pattern recipe
 		}
